@@ -2,6 +2,7 @@ import TextxVerif.Wire
 import TextxVerif.ProcWalk
 import TextxVerif.ProcLocate
 import TextxVerif.ProcRaise
+import TextxVerif.ProcLoad
 /-! Driver for the processor models (C13, C33).
 ops:
   {"op":"objproc","kinds":[0|1|2 …],"reg":[cls…],"user":[cls…],"script":[[rule,id,R]…],
@@ -13,6 +14,10 @@ ops:
    → {"events":[["r",n]|["i",m,id]|["p",m,rule,id]…],
       "logs":[[[rule,id,[shallow field values…]]…]…], "finals":[W…]}   (W: V without attribute metadata)
    → {"err":"not-wf"} when some model does not have the shape the theorems assume
+     "link" (optional, one list per model): the cross-references of the model's file in text order,
+     [[id,pos,wait]…] (wait = how often the scope provider postpones the reference); the resolutions are then
+     computed by the resolution loop (Proc.loadEvents over LinkLoc.run) instead of taken from "resolves";
+   → {"err":"unlinked"} when that loop ends with an error (no initialisation, no processor call)
   {"op":"proc_error","kind":"obj"|"mtch","wrapped":bool,
    "raised":"other"|{"f":n|null,"l":n|null,"c":n|null,"n":n|null},"site":{"f":n|null,"l":n,"c":n,"n":n},
    "pinned"?:bool}
@@ -156,7 +161,29 @@ def handle (j : Json) : Json :=
       let mms : List (MM × Val) := (regs.zip models).map (fun p => (mk p.1, p.2))
       let S := scriptOf tbl
       if mms.all (fun p => wf p.1 p.2 p.2.cls && (match p.2 with | .obj _ _ _ => true | _ => false)) then
-        let evs := finishMM S (fun c => user.contains c) resolves mms
+        let link : Option (Option (List (List (Nat × Nat × Nat)))) := match j.getObjVal? "link" with
+          | .ok (.arr a) => (a.toList.mapM (fun x => (asArr? x).bind (fun xs => xs.toList.mapM (fun y => do
+              let ys ← asArr? y
+              pure (← asNat? (← ys[0]?), ← asNat? (← ys[1]?), ← asNat? (← ys[2]?)))))).map some
+          | .ok _ => none
+          | .error _ => some none
+        match link with
+        | none => badOp
+        | some link =>
+        let evs? : Option (List Ev) := match link with
+          | none => some (finishMM S (fun c => user.contains c) resolves mms)
+          | some fl =>
+            let files : List LinkLoc.FileSpec := fl.map (fun rs =>
+              { name := none, text := [], refs := rs.map (fun r => ⟨r.1, r.2.1, r.2.1 + 1⟩), nm := none })
+            let waits := fl.flatten
+            let ans : Nat → Nat → LinkLoc.Answer := fun k id =>
+              match waits.find? (fun r => r.1 == id) with
+              | some r => if k < r.2.2 then .postponed else .resolved ⟨none, 0, 0⟩
+              | none => .unknown
+            loadEvents files ans (LinkLoc.enoughFuel files) S (fun c => user.contains c) mms
+        match evs? with
+        | none => Json.mkObj [("err", "unlinked")]
+        | some evs =>
         let res := mms.map (fun p => walk p.1 S p.2 p.2.cls)
         Json.mkObj [("events", Json.arr (evs.map evJson).toArray),
                     ("logs", Json.arr (res.map (fun r => Json.arr (r.log.map entryJson).toArray)).toArray),
